@@ -105,6 +105,8 @@ class Ctx:
     def scale(self, quick, thorough):
         """Per-shard budget: total budget split over the shards."""
         total = quick if self.quick else thorough
+        # VERIF_SCALE: development aid (smaller budgets on a busy machine)
+        total = int(total * float(os.environ.get("VERIF_SCALE", "1")))
         return max(1, total // self.nshards)
 
     # ---- counters -----------------------------------------------------
